@@ -93,6 +93,11 @@ func stateFamily(c *Ctx) []*ssa.Function {
 		if strings.HasSuffix(c.W.pos(g.Pos()), "_test.go") || strings.Contains(c.W.pos(g.Pos()), "_test.go:") {
 			continue
 		}
+		// a helper that only package initialisers call (registering the default tables from init()) runs
+		// before any call of the API, once, on one goroutine: its writes are initialisation
+		if initOnly(c.W, g) {
+			continue
+		}
 		out = append(out, g)
 	}
 	return out
@@ -628,6 +633,8 @@ func stateRules(c *Ctx) {
 		poolBufferHygiene(c, g, short1)
 		// ---- an element removed from the list that is being ranged over
 		rangeDelete(c, g, short1)
+		// ---- an in-place reversal whose bound is right for some lengths only
+		swapReversal(c, g, short1)
 	}
 	// parsers that link features to a local Sequence (shared by C01, C14, C15)
 	switch c.Prop {
@@ -2283,4 +2290,272 @@ func rangeDelete(c *Ctx, g *ssa.Function, short1 string) {
 			c.bad("STATE", "range-delete:"+short1, ap.Pos(), fmt.Sprintf("%s cuts the current element out of the list it is ranging over (append(s[:i], s[i+1:]...)) and goes on with the loop: the next element slides into the slot just visited and is skipped for this pass", short1))
 		}
 	})
+}
+
+
+var initOnlyMemo = map[*World]map[*ssa.Function]bool{}
+var initCallers = map[*World]map[*ssa.Function][]*ssa.Function{}
+
+// initOnly: every use of g in the module (call, go, defer, or its value taken) is inside a package
+// initialiser or inside a function of which the same is true; and there is at least one such use.
+func initOnly(w *World, g *ssa.Function) bool {
+	if g.Parent() != nil {
+		return false
+	}
+	callers, ok := initCallers[w]
+	if !ok {
+		callers = map[*ssa.Function][]*ssa.Function{}
+		for _, sp := range w.SSA {
+			var fns []*ssa.Function
+			for _, m := range sp.Members {
+				if f, isF := m.(*ssa.Function); isF {
+					fns = append(fns, f)
+				}
+				if t, isT := m.(*ssa.Type); isT {
+					for _, recv := range []types.Type{t.Type(), types.NewPointer(t.Type())} {
+						ms := w.Prog.MethodSets.MethodSet(recv)
+						for k := 0; k < ms.Len(); k++ {
+							if f := w.Prog.MethodValue(ms.At(k)); f != nil {
+								fns = append(fns, f)
+							}
+						}
+					}
+				}
+			}
+			for len(fns) > 0 {
+				f := fns[0]
+				fns = fns[1:]
+				if f.Blocks == nil {
+					continue
+				}
+				fns = append(fns, f.AnonFuncs...)
+				top := f
+				for top.Parent() != nil {
+					top = top.Parent()
+				}
+				eachInstr(f, func(i ssa.Instruction) {
+					for _, op := range i.Operands(nil) {
+						if op == nil || *op == nil {
+							continue
+						}
+						if callee, isFn := (*op).(*ssa.Function); isFn {
+							callers[callee] = append(callers[callee], top)
+						}
+					}
+				})
+			}
+		}
+		initCallers[w] = callers
+		initOnlyMemo[w] = map[*ssa.Function]bool{}
+	}
+	isInit := func(f *ssa.Function) bool {
+		return f.Name() == "init" || strings.HasPrefix(f.Name(), "init#")
+	}
+	visiting := map[*ssa.Function]bool{}
+	var only func(f *ssa.Function) bool
+	only = func(f *ssa.Function) bool {
+		if v, done := initOnlyMemo[w][f]; done {
+			return v
+		}
+		if visiting[f] {
+			return true
+		}
+		visiting[f] = true
+		cs := callers[f]
+		res := len(cs) > 0
+		if f.Object() != nil && f.Object().Exported() {
+			res = false // callable from outside the module
+		}
+		for _, cf := range cs {
+			if cf == f {
+				continue
+			}
+			if !isInit(cf) && !only(cf) {
+				res = false
+			}
+		}
+		initOnlyMemo[w][f] = res
+		return res
+	}
+	return only(g)
+}
+
+// swapReversal: a loop that exchanges elements of one slice in place from both ends (the usual in-place
+// reversal, with or without a per-element mapping). For lengths 0..8 the loop's own index arithmetic is
+// evaluated (induction variables, guard, index expressions; no code of the module runs) and the resulting
+// arrangement compared with the exact reversal. A loop that reverses SOME lengths exactly and not others is a
+// reversal with a wrong bound (the central pair left, or exchanged twice). A loop that reverses none is
+// something else and is left alone.
+func swapReversal(c *Ctx, g *ssa.Function, short1 string) {
+	tb := newTB(g)
+	for _, hdr := range g.Blocks {
+		isHdr := false
+		for _, p := range hdr.Preds {
+			if hdr.Dominates(p) {
+				isHdr = true
+			}
+		}
+		if !isHdr {
+			continue
+		}
+		loop := naturalLoopOf(hdr)
+		var base ssa.Value
+		var body *ssa.BasicBlock
+		nLoads, nStores := 0, 0
+		shape := true
+		loads := map[*ssa.UnOp]*ssa.IndexAddr{}
+		for _, b := range g.Blocks {
+			if !loop[b] {
+				continue
+			}
+			for _, in := range b.Instrs {
+				var ia *ssa.IndexAddr
+				switch x := in.(type) {
+				case *ssa.UnOp:
+					if x.Op.String() == "*" {
+						ia, _ = x.X.(*ssa.IndexAddr)
+						if ia != nil {
+							if _, isSl := ia.X.Type().Underlying().(*types.Slice); isSl {
+								loads[x] = ia
+								nLoads++
+							} else {
+								ia = nil
+							}
+						}
+					}
+				case *ssa.Store:
+					ia, _ = x.Addr.(*ssa.IndexAddr)
+					if ia != nil {
+						if _, isSl := ia.X.Type().Underlying().(*types.Slice); isSl {
+							nStores++
+						} else {
+							ia = nil
+						}
+					}
+				}
+				if ia == nil {
+					continue
+				}
+				if base == nil {
+					base = ia.X
+				} else if base != ia.X {
+					shape = false
+				}
+				if body == nil {
+					body = b
+				} else if body != b {
+					shape = false
+				}
+			}
+		}
+		if !shape || nStores != 2 || nLoads < 2 || body == nil {
+			continue
+		}
+		ls, _ := newLoopSim(tb, hdr)
+		if ls == nil {
+			continue
+		}
+		// the load a stored value is made from
+		var feeding func(v ssa.Value, d int) *ssa.UnOp
+		feeding = func(v ssa.Value, d int) *ssa.UnOp {
+			if d > 6 || v == nil {
+				return nil
+			}
+			if ld, ok := v.(*ssa.UnOp); ok {
+				if _, mine := loads[ld]; mine {
+					return ld
+				}
+			}
+			in, ok := v.(ssa.Instruction)
+			if !ok {
+				return nil
+			}
+			var found *ssa.UnOp
+			for _, op := range in.Operands(nil) {
+				if *op == nil {
+					continue
+				}
+				if f := feeding(*op, d+1); f != nil {
+					if found != nil && found != f {
+						return nil
+					}
+					found = f
+				}
+			}
+			return found
+		}
+		exact, firstBad, evaluable := 0, int64(-1), true
+		var badWhat string
+		for n := int64(0); n <= 8 && evaluable; n++ {
+			arr := make([]int64, n)
+			for k := range arr {
+				arr[k] = int64(k)
+			}
+			fin, whyNot := ls.run(n, nil, 64, func(env map[string]int64) (bool, string) {
+				vals := map[*ssa.UnOp]int64{}
+				for _, in := range body.Instrs {
+					switch x := in.(type) {
+					case *ssa.UnOp:
+						if ia, mine := loads[x]; mine {
+							k, ok := ls.evalInt(tb.T(ia.Index), env, 0)
+							if !ok {
+								return false, "index not evaluable"
+							}
+							if k < 0 || k >= n {
+								return false, "out of range"
+							}
+							vals[x] = arr[k]
+						}
+					case *ssa.Store:
+						ia, isEl := x.Addr.(*ssa.IndexAddr)
+						if !isEl || ia.X != base {
+							continue
+						}
+						k, ok := ls.evalInt(tb.T(ia.Index), env, 0)
+						src := feeding(x.Val, 0)
+						if ok && (k < 0 || k >= n) {
+							return false, "out of range"
+						}
+						if !ok || src == nil {
+							return false, "store not evaluable"
+						}
+						if _, have := vals[src]; !have {
+							return false, "store of a value loaded later"
+						}
+						arr[k] = vals[src]
+					}
+				}
+				return true, ""
+			})
+			if !fin && whyNot == "out of range" {
+				continue // this length never gets here (a guard in front of the loop), or the code panics: not this rule's matter
+			}
+			if !fin {
+				evaluable = false
+				break
+			}
+			rev := true
+			for k := range arr {
+				if arr[k] != n-1-int64(k) {
+					rev = false
+				}
+			}
+			if rev {
+				exact++
+			} else if firstBad < 0 {
+				firstBad = n
+				badWhat = fmt.Sprint(arr)
+			}
+		}
+		if !evaluable {
+			continue
+		}
+		key := "swap-reversal:" + short1
+		switch {
+		case firstBad < 0:
+			c.ok("STATE", key, hdr.Instrs[0].Pos(), "the in-place exchange loop yields the exact reversal for every length 0..8")
+		case exact >= 3:
+			c.bad("STATE", key, hdr.Instrs[0].Pos(), fmt.Sprintf("%s reverses a slice in place by exchanging elements from both ends; the loop's bound gives the exact reversal for %d of the lengths 0..8 but not for length %d (positions end up as %s instead of the mirror image): a pair near the centre is left alone or exchanged twice", short1, exact, firstBad, badWhat))
+		}
+	}
 }
